@@ -3,23 +3,30 @@
 import glob, json, os, re, sys
 HERE = os.path.dirname(os.path.dirname(os.path.abspath(__file__)))
 
-def seeded_table():
+def mon(c):
+    ls = c.get("lines") or []
+    return ls[0].lstrip("# ").split(":")[0] if ls else "?"
+
+def seeded_table(prefix):
     rows = []
-    for mp in sorted(glob.glob(os.path.join(HERE, "seeded", "*", "meta.json"))):
+    for mp in sorted(glob.glob(os.path.join(HERE, "seeded", prefix + "-*", "meta.json"))):
         m = json.load(open(mp))
-        first = {}
-        for h in m.get("history", []):
-            first.setdefault(h["check"], h)
-        cells = []
-        for key, c in sorted(m.get("checks", {}).items()):
-            f = first.get(key)
-            now = ("caught: " + (c["lines"][0].lstrip("# ").split(":")[0] if c.get("lines") else "?")) if c.get("detected") else "MISSED"
-            if f is not None and not f.get("detected") and c.get("detected"):
-                cells.append("%s: first missed, %s after strengthening" % (key.split(":")[0], now))
+        own = m["property"] + ":quick"
+        hist = [h for h in m.get("history", []) if h.get("check") == own]
+        cur = m.get("checks", {}).get(own)
+        first = hist[0] if hist else cur
+        if first is None:
+            first_s = now_s = "not run"
+        else:
+            first_s = ("caught (`%s`)" % mon(first)) if first.get("detected") else "**missed**"
+            if hist and cur is not None:
+                now_s = ("caught (`%s`)" % mon(cur)) if cur.get("detected") else "**missed**"
             else:
-                cells.append("%s: %s" % (key.split(":")[0], now))
-        rows.append("| %s | %s | %s | %s |" % (m["id"], m["property"], "yes" if m.get("confirmed") else "NO", "; ".join(cells) or "not run"))
-    return "| seeded change | property | confirmed (suite passes, demo fails/passes) | check results (quick tier) |\n|---|---|---|---|\n" + "\n".join(rows)
+                now_s = ""
+        others = ["%s %s" % (k.split(":")[0], "caught" if c.get("detected") else "missed") for k, c in sorted(m.get("checks", {}).items()) if k != own]
+        rows.append("| %s | %s | %s | %s | %s | %s |" % (m["id"], m["property"], m["needs"], first_s, now_s, "; ".join(others)))
+    return ("| seeded change | property | needs, in order to manifest | own check as built when the change arrived | own check after strengthening | other checks run |\n"
+            "|---|---|---|---|---|---|\n" + "\n".join(rows))
 
 def mutant_table(logdir):
     rows = []
@@ -29,16 +36,15 @@ def mutant_table(logdir):
         for line in txt.splitlines():
             m = re.match(r"(\S+) (C\d+) \((\d+), (.*)\)$", line)
             if not m:
-                if "AssertionError" in line or "Error" in line:
-                    rows.append("| %s | - | tool error: %s |" % (mid, line[:80]))
                 continue
             rc = int(m.group(3))
             mons = sorted(set(re.findall(r"# (C\d+\.[a-z_0-9]+)", m.group(4))))
-            rows.append("| %s | %s | %s |" % (m.group(1), m.group(2), ("caught: " + ", ".join(mons)) if rc == 1 and mons else ("silent" if rc == 0 else "rc=%d %s" % (rc, m.group(4)[:80]))))
-    return "| mutant | check | result |\n|---|---|---|\n" + "\n".join(rows)
+            rows.append("| %s | %s | %s |" % (m.group(1), m.group(2), ("caught: " + ", ".join("`%s`" % x for x in mons)) if rc == 1 and mons else ("silent" if rc == 0 else "rc=%d %s" % (rc, m.group(4)[:80]))))
+    return "| mutant (mutants/candidates.json) | check | result |\n|---|---|---|\n" + "\n".join(rows)
 
 if __name__ == "__main__":
-    print(seeded_table())
-    if len(sys.argv) > 1:
-        print()
-        print(mutant_table(sys.argv[1]))
+    what = sys.argv[1]
+    if what == "seeded":
+        print(seeded_table(sys.argv[2]))
+    else:
+        print(mutant_table(sys.argv[2]))
